@@ -20,6 +20,14 @@ type PropConfig struct {
 	Assumptions []string `json:"assumptions"` // property-level assumptions (residuals)
 	Bounded     []string `json:"bounded"`     // names of bounded stand-ins (run by the check script)
 	Explanation string   `json:"explanation"`
+	// obligation names (regex) that no contract can license because the property itself forbids the effect
+	// (a store into the parsed program during execution): a failure is a violation also when the
+	// obligation belongs to code that did not exist on the unchanged tree
+	Forbidden string `json:"forbidden"`
+	// the property speaks about state that outlives one execution: a function of the cone that reads a
+	// package-level variable it did not read on the unchanged tree (and that no contract mentions) is
+	// handed to the replay corpus even when none of its obligations fails
+	StateCone bool `json:"state_cone"`
 }
 
 type Ledger struct {
@@ -268,6 +276,27 @@ func runProperty(eng *Engine, verifDir, prop, tier string, updateLedger, verbose
 	solverSecs := 0.0
 	var samples []map[string]interface{}
 	var violationLines []string
+	var forbiddenRe *regexp.Regexp
+	if cfg.Forbidden != "" {
+		forbiddenRe = regexp.MustCompile(cfg.Forbidden)
+	}
+	forbidden := func(n string) bool { return forbiddenRe != nil && forbiddenRe.MatchString(n) }
+	if cfg.StateCone {
+		for _, fv := range fvs {
+			if !matchAny(fre, fv.short) {
+				continue
+			}
+			wasRead := map[string]bool{}
+			for _, k := range ledger.Globals[fv.short] {
+				wasRead[k] = true
+			}
+			for _, gname := range sortedKeys(fv.globalsRead) {
+				if !wasRead[gname] && !eng.specMentions(gname) {
+					undecided = append(undecided, fmt.Sprintf("%s#state:%s (%s reads the package-level variable %s, which it did not read on the unchanged tree and no contract mentions: state that may outlive an execution)", fv.short, gname, fv.short, gname))
+				}
+			}
+		}
+	}
 	for _, n := range names {
 		g := groups[n]
 		st := g.status()
@@ -364,12 +393,12 @@ func runProperty(eng *Engine, verifDir, prop, tier string, updateLedger, verbose
 		// in the ledger: a violation in any case. New obligation (code that did not exist on the
 		// unchanged tree): a violation only if the solver refutes it (sat) or it fails with a candidate
 		// model AND the replay harness reproduces a failure on the real code.
-		if inLedger[n] || st == "sat" || cand {
+		if inLedger[n] || st == "sat" || cand || forbidden(n) {
 			// violation: replay
 			rp := writeReplay(eng, verifDir, prop, g, dump)
 			line := fmt.Sprintf("VIOLATION property=%s replay=%s", prop, rp.Path)
 			if !rp.Reproduced {
-				if !inLedger[n] {
+				if !inLedger[n] && !forbidden(n) {
 					// a new obligation that only fails without a confirmed input: not an alarm
 					newFailed = append(newFailed, fmt.Sprintf("%s (%s, unconfirmed)", n, st))
 					continue
